@@ -107,5 +107,8 @@ where
         }
     }
 
+    #[cfg(feature = "verif-hooks")]
+    crate::verif::after_sweep(event_queue.len());
+
     sorted_events
 }
